@@ -5,7 +5,6 @@ package ircserver
 // solver variables constrained only by the representation invariant.
 
 import (
-	"regexp"
 	"time"
 
 	"github.com/robustirc/robustirc/internal/config"
@@ -265,9 +264,9 @@ func vBuild(role int) *vTpl {
 		ch.topicTime = verifIteT(vBit(vgTimes, true), vTime(), time.Time{})
 		nB := verifParam("bans", 1)
 		for b := 0; b < nB; b++ {
-			pat := vStr(L)
-			re, err := regexpCompileForTemplate(pat)
-			verifAssume(err == nil)
+			// a ban either matches every user ("*") or one specific mask: the two classes
+			// the handlers can tell apart; arbitrary expressions are outside (DESIGN.md §12.4)
+			re := verifRegexpEither(nondetBool(), ".*", "^q!q@q$")
 			ch.bans = append(ch.bans, banPattern{re: re, pattern: vStr(L)})
 		}
 		lc := ChanToLower(ch.name)
@@ -303,4 +302,4 @@ func vBuild(role int) *vTpl {
 	return t
 }
 
-func regexpCompileForTemplate(p string) (*regexp.Regexp, error) { return regexp.Compile(p) }
+
